@@ -113,6 +113,11 @@ fn main() {
                 Cfg { ents: vec!["e1".into(), "e2".into(), "e3".into(), "e4".into()], clients: clients(2), max_size: vec![100, 220], rel: true, ..Default::default() },
                 Profile { steps: 70, comps: vec!["A", "B"], pad: 40, rel: true, marks: false, clean: true, ..Default::default() },
             ),
+            // relations across disconnects, reconnects and server restarts
+            "rel_sess" => (
+                Cfg { ents: three(), clients: clients(2), max_size: vec![1200; 2], rel: true, ..Default::default() },
+                Profile { steps: 70, comps: vec!["A"], rel: true, sess: true, marks: false, clean: true, ..Default::default() },
+            ),
             // relations together with visibility and marker changes (known finding F17 is not avoided)
             "rel_vis" => (
                 Cfg { ents: three(), clients: clients(2), max_size: vec![1200; 2], rel: true, policy: "black".into(), ..Default::default() },
